@@ -24,6 +24,10 @@ func init() {
 			"both keys derive from all their documented components; sharing is dominated by the query-only eligibility tests; every wait on a shared record can also leave through the participant's own context; " +
 			"and (context provenance) whether a follower can return the leader's cancellation verbatim. It does not decide byte equality of what participants receive.",
 		Mutants: []Mutant{
+			{Name: "FinishErr skips the wake-up when no follower is counted (seeded change C11-12)", File: "v2/pkg/engine/resolve/inbound_request_singleflight.go", Rule: "C11-R2", Key: "InboundRequestSingleFlight.FinishErr/every-exit-wakes-waiters",
+				Old: "\tshard.m.Delete(req.ID)\n\treq.Err = err\n\tclose(req.Done)", New: "\tshard.m.Delete(req.ID)\n\tif !req.HasFollowers() {\n\t\treturn\n\t}\n\treq.Err = err\n\tclose(req.Done)"},
+			{Name: "leader's client write error shared with the followers (seeded change C11-11)", File: resolveGo, Rule: "C11-R8", Key: "ArenaResolveGraphQLResponse/finish-err-not-from-client-write",
+				Old: "\tresp.ResponseWriteDuration = time.Since(responseWriteStart)\n", New: "\tresp.ResponseWriteDuration = time.Since(responseWriteStart)\n\tif err != nil {\n\t\tr.inboundRequestSingleFlight.FinishErr(inflight, err)\n\t\tr.responseBufferPool.Release(responseArena)\n\t\treturn resp, err\n\t}\n"},
 			{Name: "failed subgraph loads stay in the in-flight table (seeded change C07-13)", File: "v2/pkg/engine/resolve/subgraph_request_singleflight.go", Rule: "C11-R2", Key: "SubgraphRequestSingleFlight.Finish/removed-before-close",
 				Old: "\tshard.items.Delete(item.SFKey)\n\tclose(item.loaded)\n", New: "\tif len(item.response) == 0 {\n\t\tclose(item.loaded)\n\t\treturn\n\t}\n\tshard.items.Delete(item.SFKey)\n\tclose(item.loaded)\n"},
 			{Name: "early return before FinishErr on the authorization error edge", File: resolveGo, Rule: "C11-R1", Key: "ArenaResolveGraphQLResponse",
@@ -55,6 +59,7 @@ func init() {
 }
 
 func runC11(r *fw.Run) {
+	defer c11LeaderWriteErrorIsNotShared(r)
 	p := r.Prog
 	pk := p.Pkg("resolve")
 	if pk == nil {
@@ -1001,6 +1006,9 @@ func checkRemovedBeforeClose(r *fw.Run, rule string, inbound bool) {
 				if fw.Builtin(info, c) == "delete" {
 					st.Set("removed")
 				}
+				if fw.Builtin(info, c) == "close" && len(c.Args) == 1 && fw.IsFieldSel(info, c.Args[0], "resolve", cs.chanT, cs.chanF) {
+					st.Inc("closed")
+				}
 				if fw.Builtin(info, c) == "close" && len(c.Args) == 1 && fw.IsFieldSel(info, c.Args[0], "resolve", cs.chanT, cs.chanF) && in.Final() {
 					nClose++
 					r.Check(st.Must("removed"), rule, fi.Name()+"/removed-before-close", p.Pos(c.Pos()), "the in-flight entry is removed from the table before close("+cs.chanF+") on every path of "+fi.Name(),
@@ -1008,7 +1016,105 @@ func checkRemovedBeforeClose(r *fw.Run, rule string, inbound bool) {
 				}
 			},
 		}
+		// every exit wakes the waiters exactly once; only the guard for a nil request may leave without
+		nExit := 0
+		in.H.Cond = func(e ast.Expr, branch bool, st *fw.State) {
+			if _, eq, ok := fw.NilCheck(info, e); ok && eq == branch {
+				st.Set("nil-request")
+			}
+		}
+		in.H.Exit = func(ret *ast.ReturnStmt, lit *ast.FuncLit, st *fw.State) {
+			if lit != nil || st.Must("nil-request") {
+				return
+			}
+			nExit++
+			pos := fi.Decl.End()
+			if ret != nil {
+				pos = ret.Pos()
+			}
+			r.Check(st.Get("closed") == fw.Cnt{Min: 1, Max: 1}, rule, fi.Name()+"/every-exit-wakes-waiters#"+itoa(nExit), p.Pos(pos), "exit of "+fi.Name()+" has closed "+cs.chanF+" exactly once",
+				"an exit leaves the wake-up channel open (or closes it twice): a follower that registered — or is just registering: the follower counter is only a hint outside the shard lock — waits until its own context ends (a wedged request), resp. the process panics on the second close")
+		}
 		in.Run(nil)
 		r.Expect(rule, "close("+cs.chanF+") in "+cs.fn+" (removal)", nClose, 1)
 	}
+}
+
+// c11LeaderWriteErrorIsNotShared (R8, added after a seeded change finished the in-flight request with the leader's write
+// error): the error handed to FinishErr is an error of the shared work, never the result of writing the response to the
+// leader's own client. The shared work succeeded; a leader whose connection broke must not fail the followers.
+func c11LeaderWriteErrorIsNotShared(r *fw.Run) {
+	p := r.Prog
+	r.Rule("C11-R8", "the error handed to InboundRequestSingleFlight.FinishErr never is the result of writing the response to the leader's own client (writer parameter): a leader whose connection broke does not fail its followers")
+	fi := p.Func("resolve", "Resolver.ArenaResolveGraphQLResponse")
+	if fi == nil {
+		r.Error("C11-R8: Resolver.ArenaResolveGraphQLResponse not found")
+		return
+	}
+	info := fi.Info()
+	sig := fi.Obj.Type().(*types.Signature)
+	var writer types.Object
+	for i := 0; i < sig.Params().Len(); i++ {
+		if t := sig.Params().At(i).Type(); strings.HasSuffix(t.String(), "io.Writer") {
+			writer = sig.Params().At(i)
+		}
+	}
+	if writer == nil {
+		r.Error("C11-R8: no io.Writer parameter in ArenaResolveGraphQLResponse")
+		return
+	}
+	fromWriter := func(e ast.Expr) bool {
+		c, ok := ast.Unparen(e).(*ast.CallExpr)
+		if !ok {
+			return false
+		}
+		sel, ok := ast.Unparen(c.Fun).(*ast.SelectorExpr)
+		return ok && fw.RootObj(info, sel.X) == writer
+	}
+	n := 0
+	in := fw.NewInterp(fi)
+	in.H = fw.Hooks{
+		Lit: func(l *ast.FuncLit, ctx fw.LitCtx, st *fw.State) fw.LitMode {
+			if ctx.Deferred {
+				return fw.LitOnce
+			}
+			return fw.LitSkip
+		},
+		Node: func(nd ast.Node, st *fw.State) {
+			switch x := nd.(type) {
+			case *ast.AssignStmt:
+				// which error variables currently hold the result of a write to the client
+				for i, l := range x.Lhs {
+					o := fw.RootObj(info, l)
+					if o == nil {
+						continue
+					}
+					if t := info.TypeOf(l); t == nil || t.String() != "error" {
+						continue
+					}
+					rhs := x.Rhs[0]
+					if i < len(x.Rhs) {
+						rhs = x.Rhs[i]
+					}
+					if fromWriter(rhs) {
+						st.Set("client-write-error:" + o.Name())
+					} else {
+						st.Kill("client-write-error:" + o.Name())
+					}
+				}
+			case *ast.CallExpr:
+				if fw.CallIs(info, x, "resolve", "InboundRequestSingleFlight.FinishErr") && len(x.Args) == 2 && in.Final() {
+					n++
+					bad := fromWriter(x.Args[1])
+					if o := fw.RootObj(info, x.Args[1]); o != nil && st.May("client-write-error:"+o.Name()) {
+						bad = true
+					}
+					r.Check(!bad, "C11-R8", fi.Name()+"/finish-err-not-from-client-write#"+itoa(n), p.Pos(x.Pos()), "FinishErr receives an error of the shared work",
+						"the in-flight request is finished with the error of writing to the leader's own client: every follower fails with the leader's connection error (e.g. io.ErrClosedPipe) although the shared work succeeded and their own connections are fine")
+				}
+			}
+		},
+	}
+	in.Run(nil)
+	r.Expect("C11-R8", "FinishErr calls in ArenaResolveGraphQLResponse", n, 3)
 }
